@@ -29,6 +29,7 @@ type fileCtx struct {
 	usedSync    bool
 	nSelect     int
 	nYield      int
+	constraint  string
 	unrewritten []string
 }
 
@@ -124,11 +125,24 @@ func rewrite(c *fileCtx, path string, data []byte, mod string) ([]byte, error) {
 	// keep only build-constraint comments
 	var keep []*ast.CommentGroup
 	for _, cg := range f.Comments {
-		if cg.End() < f.Package && strings.Contains(cg.Text(), "go:build") {
-			keep = append(keep, cg)
+		isConstraint := false
+		for _, cm := range cg.List { // (CommentGroup.Text drops directive comments)
+			if strings.HasPrefix(cm.Text, "//go:build") {
+				isConstraint = true
+			}
+		}
+		if cg.End() < f.Package && isConstraint {
+			// re-emitted textually in front of the printed file (kept comments upset the printer's line layout
+			// once specs without positions are appended to the import block)
+			for _, cm := range cg.List {
+				if strings.HasPrefix(cm.Text, "//go:build") {
+					c.constraint = cm.Text
+				}
+			}
 		}
 	}
-	f.Comments = keep
+	_ = keep
+	f.Comments = nil
 	f.Doc = nil
 
 	// type and import rewrites
@@ -236,6 +250,11 @@ func rewrite(c *fileCtx, path string, data []byte, mod string) ([]byte, error) {
 	var buf bytes.Buffer
 	if err := (&printer.Config{Mode: printer.UseSpaces | printer.TabIndent, Tabwidth: 8}).Fprint(&buf, token.NewFileSet(), f); err != nil {
 		return nil, err
+	}
+	if c.constraint != "" {
+		out := append([]byte(c.constraint+"\n\n"), buf.Bytes()...)
+		c.constraint = ""
+		return out, nil
 	}
 	return buf.Bytes(), nil
 }
